@@ -7,6 +7,7 @@ package design
 // Design is one goa design.
 type Design struct {
 	API      string     `json:"api"`
+	Path     string     `json:"path,omitempty"` // API level HTTP base path
 	Types    []*TypeDef `json:"types,omitempty"`
 	Schemes  []*Scheme  `json:"schemes,omitempty"`
 	Security []Req      `json:"security,omitempty"` // API level requirements
